@@ -269,6 +269,72 @@ def build_chain(d, placement, style):
     return prog, 'd=%d|%s|%s' % (d, ','.join(placement), style)
 
 
+def multi_capture(tier):
+    """chain f1 > f2 > ... of nested functions; every level declares two variables (both lets or both parameters, so that cell
+    indices of different levels coincide) and reads a chosen variable of every ancestor in a chosen subset, before or after its
+    own nested function is defined: several captures of different distances live in one function, and a nested function's
+    capture requests pass through parents that hold captures of their own.  Values are distinct powers of two: the observed
+    sum names exactly the variables that were read"""
+    out = []
+    depths = (3, 4) if tier == 'quick' else (3, 4, 5)
+    for D in depths:
+        per_level = []
+        for k in range(1, D):
+            subsets = [tuple(j for j in range(k) if (m >> j) & 1) for m in range(1 << k)]
+            whens = ('before', 'after') if k < D - 1 else ('before',)
+            per_level.append([(a, w) for a in subsets for w in whens])
+        kind_choices = list(itertools.product(('let', 'param'), repeat=D - 1))
+        if D == 5:
+            kind_choices = [kc for kc in kind_choices if kc in (('let',) * 4, ('param',) * 4, ('let', 'param', 'let', 'param'), ('param', 'let', 'param', 'let'), ('param', 'param', 'let', 'let'))]
+        for uses in itertools.product(*per_level):
+            if not any(a for a, w in uses):
+                continue
+            for kinds in kind_choices:
+                for vsel in ('x', 'y', 'alt'):
+                    out.append(build_multi(D, uses, ('let',) + kinds, vsel))
+    return out
+
+
+def build_multi(D, uses, kinds, vsel):
+    ctr = [0]
+
+    def lit():
+        ctr[0] += 1
+        return ('lit', 1 << ctr[0])
+
+    def vname(j, k):
+        which = vsel if vsel != 'alt' else 'xy'[(j + k) % 2]
+        return '%s%d' % (which, j)
+
+    def level(k):
+        decls = []
+        if kinds[k] == 'let':
+            decls += [('let', 'x%d' % k, lit()), ('let', 'y%d' % k, lit())]
+        tdecl = None
+        if k >= 1:
+            anc, when = uses[k - 1]
+            tdecl = ('let', 't%d' % k, ('sum', [('var', vname(j, k)) for j in anc] + [lit()]))
+            if when == 'before':
+                decls.append(tdecl)
+        if k < D - 1:
+            inner_decls, inner_ret = level(k + 1)
+            params = [('x%d' % (k + 1), INT, None), ('y%d' % (k + 1), INT, None)] if kinds[k + 1] == 'param' else []
+            args = [lit(), lit()] if params else []
+            decls.append(('fn', 'f%d' % (k + 1), params, INT, inner_decls, inner_ret))
+            call = ('call', ('var', 'f%d' % (k + 1)), args)
+            if tdecl is not None and when == 'after':
+                decls.append(tdecl)
+            ret = ('sum', [('var', 't%d' % k), call]) if k >= 1 else call
+        else:
+            ret = ('var', 't%d' % k)
+        return decls, ret
+
+    decls, use = level(0)
+    prog = decls + [('let', 'r', use)]
+    label = 'D=%d|%s|%s|%s' % (D, ';'.join('%s%s' % (''.join(map(str, a)) or '-', w[0]) for a, w in uses), ','.join(k[0] for k in kinds), vsel)
+    return prog, label
+
+
 # ----------------------------------------------------------------------------- 3/4. defaults, recursion (text templates + model values)
 def text_cases(tier):
     """(label, source, expected value of r, expected output) — expectations computed by plain Python below"""
@@ -593,7 +659,7 @@ def run(tier):
                  '(thorough) declarations over {int let, named function, closure-returning function, let-bound lambda} x parameter shapes '
                  '{none, shadowing parameter, printing default} with a maximal observation at every site, each rendered with the callee values '
                  'transported through %d routes; (2) capture matrix: nesting depth 1..3/4 x {absent, before, after, parameter, both}^levels x '
-                 '{nested call, escaping closures}; (3) defaults: creations x calls with counted output; (4) recursion through captured names '
+                 '{nested call, escaping closures}, and chains of depth 3..4/5 in which every level reads a chosen variable of every ancestor in a chosen subset before or after its own nested function (all subsets x let/parameter cells x variable choice); (3) defaults: creations x calls with counted output; (4) recursion through captured names '
                  'and closures created per iteration / per recursion level; (5) forward declarations: every declaration order x use position '
                  'x target x 6 ways of using a function; (6) %d identifier spellings in 5 declaration roles and all ordered pairs; '
                  'non-trivial = distinct programs' % (len(TRANSPORTS), len(IDENTS)))
@@ -639,6 +705,12 @@ def run(tier):
         exp = S.run_ref(prog)
         wrapped.append(('capture|' + label, S.rdecls(prog), exp))
         top.append(('capture-top|' + label, S.rdecls(prog), exp))
+    mc_ = multi_capture(tier)
+    rep.bounds['multi_capture_programs'] = len(mc_)
+    for prog, label in mc_:
+        exp = S.run_ref(prog)
+        wrapped.append(('multi-capture|' + label, S.rdecls(prog), exp))
+        top.append(('multi-capture-top|' + label, S.rdecls(prog), exp))
     for label, src, v, outp in text_cases(tier):
         top.append((label, src, (v, outp)))
 
